@@ -57,6 +57,16 @@ Definition regroup_law (op : name) : Prop :=
     req (bind (rt op c1 x) (fun r => rt op r c2)) (rt op c x) /\
     req (bind (rt op x c1) (fun r => rt op r c2)) (rt op x c).
 
+(* the same law without the escape for inexact results: both groupings give the SAME outcome
+   (also the same failure, also Unsup on both sides) *)
+Definition regroup_exact (op : name) : Prop :=
+  forall c1 c2 c x, calc op c1 c2 = Ok c ->
+    (calc op c x = bind (calc op c1 x) (fun r => calc op r c2)) /\
+    (calc op x c = bind (calc op x c1) (fun r => calc op r c2)).
+
+Definition regroup_exact_ok (fl : cfgflags) : Prop :=
+  forall op pure, op_flags fl op = Some (pure, true) -> short_circuit op = false /\ regroup_exact op.
+
 (* an operator that regroups does not short-circuit (the regrouped operand x is evaluated exactly
    once on both sides) and obeys the law *)
 Definition regroup_ok (fl : cfgflags) : Prop :=
@@ -106,11 +116,11 @@ Inductive arel : list (name * value) -> ast -> ast -> Prop :=
 | ar_unary s op x x' : arel s x x' -> arel s (AUnary op x) (AUnary op x')
 | ar_op s op x x' y y' : arel s x x' -> arel s y y' -> arel s (AOp op x y) (AOp op x' y')
 | ar_regroup_l s op a b c1 c2 c x' :
-    short_circuit op = false -> regroup_law op ->
+    short_circuit op = false -> regroup_exact op ->
     arel s a (AOp op (AConst c1) x') -> arel s b (AConst c2) -> calc op c1 c2 = Ok c ->
     arel s (AOp op a b) (AOp op (AConst c) x')
 | ar_regroup_r s op a b c1 c2 c x' :
-    short_circuit op = false -> regroup_law op ->
+    short_circuit op = false -> regroup_exact op ->
     arel s a (AOp op x' (AConst c1)) -> arel s b (AConst c2) -> calc op c1 c2 = Ok c ->
     arel s (AOp op a b) (AOp op x' (AConst c))
 | ar_closure s ps b b' outer outer' r r' this :
